@@ -103,7 +103,7 @@ func Overlay(repoDir, harnessDir, pkg string, native bool) (map[string][]byte, e
 	if err != nil {
 		return nil, err
 	}
-	needDoc := false
+	needDoc, needBolt := false, false
 	for _, e := range ents {
 		if strings.HasSuffix(e.Name(), ".go") {
 			b, err := os.ReadFile(filepath.Join(hd, e.Name()))
@@ -112,6 +112,9 @@ func Overlay(repoDir, harnessDir, pkg string, native bool) (map[string][]byte, e
 			}
 			if strings.Contains(string(b), "vdoc(") {
 				needDoc = true
+			}
+			if strings.Contains(string(b), "vboltbucket(") {
+				needBolt = true
 			}
 			ov[filepath.Join(pkgDir, e.Name())] = b
 		}
@@ -140,8 +143,8 @@ func Overlay(repoDir, harnessDir, pkg string, native bool) (map[string][]byte, e
 			ov[path] = []byte(text)
 		}
 	}
-	ov[filepath.Join(pkgDir, "zz_verif_rt_sym.go")] = []byte(RTSym(name, needDoc))
-	ov[filepath.Join(pkgDir, "zz_verif_rt_native.go")] = []byte(RTNative(name, needDoc))
+	ov[filepath.Join(pkgDir, "zz_verif_rt_sym.go")] = []byte(RTSymX(name, needDoc, needBolt))
+	ov[filepath.Join(pkgDir, "zz_verif_rt_native.go")] = []byte(RTNativeX(name, needDoc, needBolt))
 	return ov, nil
 }
 
